@@ -1,32 +1,12 @@
-"""Per-property configuration of the check driver."""
+"""Per-property configuration of the check driver: one file tools/props/Cxx.py per claimed property,
+each defining PROP (a dict, see tools/COMPONENT_GUIDE.md)."""
+import importlib.util, os
 
-PROPS = {
-    "C09": {
-        "props_files": ["Props/C09.v"],
-        "jobs": [{"component": "codec", "comp_num": 9, "quick": 4000, "thorough": 400000}],
-        "design_ref": "DESIGN.md section 5, C09",
-        "level_text": "Theorems (Coq, closed under the global context) on a Gallina transcription of MultiplexMsg::{write,read}, "
-                      "ExchangedCfg::{write,read} and the length-prefixed framing: encoder = version-3 table layout for every "
-                      "well-formed message, decoder total and inverse to the encoder incl. id-less variants, canonical re-encoding, "
-                      "rejection of bad configs/codes/magic, framing round trip, handshake bytes. Constants are regenerated from the "
-                      "Rust source every run; the transcription is tied to the code by a direct codec differential (hook H2), "
-                      "by feeding the table's bytes to the real decoder, and by the handshake of a real endpoint.",
-        "level_note": "Trusted: Coq kernel (+vm_compute), translator, extraction (ExtrOcamlBasic only) and mrun glue (cross-checked in-kernel on a "
-                      "sample), harness and hook H2; LengthDelimitedCodec and the dispatcher's use of the codec are modelled and sampled, not verified; "
-                      "the Mux-level statements (no ids to old peers, payload frame follows Data) belong to the dispatcher model.",
-        "phase2": "spec3_decode",
-        # for the codec the disagreeing message is itself the failing input: the model provably has the
-        # version-3 layout, so bytes that differ from the model's differ from the layout
-        "disagreement_is_violation": "implementation bytes/decoding differ from the version-3 layout proved for the model",
-        "trivial_sig": r"^(enc:(Reset|Ping|ClientFinish|ListenerFinish|Goodbye)$|dec:ok:(Reset|Ping|ClientFinish|ListenerFinish|Goodbye)|dec:invalid:c17|dec:eof:c0)",
-        "rule": "cases from one PRNG (VERIF_SEED): encode of generated messages (every kind x flag combination x boundary "
-                "field values, mismatched id lists), decode of the implementation's own encodings, of mutated encodings "
-                "(truncated, tail bytes, flag byte, code byte, bit flip, unknown flag bits, partial port/id) and of random "
-                "bytes, LengthDelimitedCodec frame/deframe, handshake bytes of a real endpoint, max_frame_length; a case is "
-                "non-trivial unless it is a field-less message or an unknown-code/empty rejection; distinct = distinct input",
-        "assumptions": [
-            "hook H2 exposes MultiplexMsg::{to_vec,read} unchanged",
-            "tokio_util LengthDelimitedCodec is modelled by frame/deframe and sampled, not verified",
-        ],
-    },
-}
+PROPS = {}
+_d = os.path.join(os.path.dirname(os.path.abspath(__file__)), "props")
+for _f in sorted(os.listdir(_d)):
+    if _f.endswith(".py") and _f[0] == "C":
+        _spec = importlib.util.spec_from_file_location("props_" + _f[:-3], os.path.join(_d, _f))
+        _m = importlib.util.module_from_spec(_spec)
+        _spec.loader.exec_module(_m)
+        PROPS[_f[:-3]] = _m.PROP
